@@ -14,8 +14,20 @@ HP = {v: k for k, v in PH.items()}
 # shapes: model name -> real shape (vh.sut.recov) + job-name mapping + placement
 # ---------------------------------------------------------------------------------------------------
 
+# fork/join DAGs with one topological order (MC_Recovery.tla, DagSkip): the chain a -> b -> ... plus these skip edges
+DAG_SKIP = {"dag4": {"c": "a", "d": "b"}, "dag5": {"c": "a", "e": "b"}, "dag6": {"c": "a", "f": "b"}}
+
+
+def dag_parents(name: str):
+    ids = "abcdef"[:int(name[3])]
+    return {x: ([ids[i - 1]] if i else []) + ([DAG_SKIP[name][x]] if x in DAG_SKIP[name] else []) for i, x in enumerate(ids)}
+
+
 def real_shape(name: str):
     from vh.sut import recov
+    if name.startswith("dag"):
+        par = dag_parents(name)
+        return recov.dag(par, name=name), {x: "/%s/0" % x for x in par}, {}, ("L1",)
     if name.startswith("pipe"):
         n = int(name[4])
         sh = recov.pipeline(n)
@@ -39,11 +51,12 @@ def real_shape(name: str):
 
 
 def cfg_text(shape, *, limit=30, dummy=False, limits=None, managers=None, maxpairs=1, maxtimes=1, kinds=("soft", "fail_stop"), phases=("s", "t", "e"),
-             gen=False, maxgen=12, invariants=True, view=False, liveness=False):
+             gen=False, maxgen=12, invariants=True, view=False, liveness=False, maxlose=0, failjobs=()):
     s = ["CONSTANTS",
          "  Jobs <- MCJobs  Parents <- MCParents  Loc <- MCLoc  Sink <- MCSink",
          "  Limit = %d  Dummy = %s  MaxGen = %d" % (max(limits or [limit]), "TRUE" if dummy else "FALSE", maxgen),
-         "  Shape = \"%s\"  MaxPairs = %d  MaxTimes = %d" % (shape, maxpairs, maxtimes),
+         "  Shape = \"%s\"  MaxPairs = %d  MaxTimes = %d  MaxLose = %d  FailJobs = {%s}" % (
+             shape, maxpairs, maxtimes, maxlose, ", ".join('"%s"' % x for x in failjobs)),
          "  Kinds = {%s}  PhasesUsed = {%s}" % (", ".join('"%s"' % k for k in kinds), ", ".join('"%s"' % p for p in phases)),
          "  Limits = {%s}  Managers = {%s}" % (", ".join(str(x) for x in (limits or [limit])),
                                                ", ".join("TRUE" if m else "FALSE" for m in (managers if managers is not None else [dummy])))]
@@ -62,7 +75,7 @@ def plan_key(plan_rec) -> str:
     """Canonical key of a plan as emitted by TLC ({"a|e": [2, "soft"]} or [] for the empty plan)."""
     if not plan_rec:
         return "{}"
-    return json.dumps({k: [int(v[0]), v[1]] for k, v in sorted(plan_rec.items())}, sort_keys=True)
+    return json.dumps({k: [int(v[0]), v[1]] + ([sorted(v[2])] if len(v) > 2 else []) for k, v in sorted(plan_rec.items())}, sort_keys=True)
 
 
 def predictions(ctx, shape, **kw):
@@ -84,18 +97,26 @@ def real_plan(plan_rec, jobs):
     plan = {}
     for k, v in (plan_rec or {}).items():
         x, ph = k.split("|")
-        plan[(jobs[x], PH[ph])] = [v[1], int(v[0])]
+        plan[(jobs[x], PH[ph])] = [v[1], int(v[0])] + ([[jobs[y] for y in sorted(v[2])]] if len(v) > 2 else [])
     return plan
 
 
-def observed(obs, jobs):
-    """Project a real observation on the model's vocabulary."""
+def observed(obs, jobs, nports=None):
+    """Project a real observation on the model's vocabulary.  `nports`: model job -> number of inputs (> 1 only in the DAG
+    shapes): a job with n inputs has n transfer steps; a run of the job starts all of them, the recovery of ONE failed
+    transfer step re-runs only that one: started = n * rounds + failures.  The model's "t" phase is one attempt in both cases."""
     inv = {v: k for k, v in jobs.items()}
     att = {x: {p: 0 for p in PH} for x in jobs}
     for k, n in obs["attempts"].items():
         j, ph = k.split("|")
         if j in inv:
             att[inv[j]][HP[ph]] = n
+    for x, n in (nports or {}).items():
+        if n > 1:
+            j = jobs[x]
+            ft = (obs.get("injected") or {}).get("%s|transfer" % j, 0) + (obs.get("natural") or {}).get("%s|transfer" % j, 0)
+            full, rest = divmod(att[x]["t"] - ft, n)
+            att[x]["t"] = full + ft + rest      # rest != 0: not explained by whole rounds + one re-run per failure (shows as a mismatch)
     rows = {inv[j]: n for j, n in (obs.get("exec_rows") or {}).items() if j in inv}
     ver = {x: 1 for x in jobs}
     for j, v in (obs.get("versions") or {}).items():
@@ -168,9 +189,9 @@ def run_real(ctx, shape, plan_rec, *, limit=30, dummy=False, serial_seed=None, d
 # ---------------------------------------------------------------------------------------------------
 
 def role(shape, x):
-    if shape.startswith("pipe"):
-        n = int(shape[4])
-        return "src" if x == "a" else ("sink" if x == "abcde"[n - 1] else "mid")
+    if shape.startswith("pipe") or shape.startswith("dag"):
+        n = int(shape[4] if shape.startswith("pipe") else shape[3])
+        return "src" if x == "a" else ("sink" if x == "abcdef"[n - 1] else "mid")
     return {"a": "src", "c": "sink"}.get(x, "elem")
 
 
@@ -184,7 +205,7 @@ def plan_sig(shape, plan_rec, limit):
         per.setdefault(x, []).append("%s:%s%s" % (ph, v[1], rel))
     order = {"s": 0, "t": 1, "e": 2}
     items = sorted("%s(%s)" % (role(shape, x), "+".join(sorted(fs, key=lambda f: order[f[0]]))) for x, fs in per.items())
-    fam = ("pipe" + ("x" if shape.endswith("x") else "")) if shape.startswith("pipe") else "scat"
+    fam = ("pipe" + ("x" if shape.endswith("x") else "")) if shape.startswith("pipe") else "dag" if shape.startswith("dag") else "scat"
     return "%s:%s" % (fam, ",".join(items) or "none")
 
 
@@ -194,9 +215,12 @@ def run_case(ctx, shape, recs, *, serial=True, seed=0, timeout=600.0):
     limit, dummy = int(rec0["limit"]), bool(rec0["dummy"])
     plan_rec = rec0["plan"] or {}
     stale = sorted({x for r in recs for x in (r.get("stale") or [])})
+    # jobs of which a recovery met a lost instance AND a newer available one, with the order in which the walk meets them
+    sup = sorted({"%s:%s" % (role(shape, x), c) for r in recs for x, c in (r.get("superseded") or [])})
     case = {"shape": shape, "plan": plan_rec, "limit": limit, "dummy": dummy, "serial": serial, "seed": seed,
-            "sig": plan_sig(shape, plan_rec, limit) + (":stale-jobtoken(%s)" % ",".join(sorted({role(shape, x) for x in stale})) if stale else ""),
-            "stale": stale, "model_outcomes": sorted({r["outcome"] for r in recs})}
+            "sig": plan_sig(shape, plan_rec, limit) + (":stale-jobtoken(%s)" % ",".join(sorted({role(shape, x) for x in stale})) if stale else "")
+                   + (":superseded(%s)" % ",".join(sup) if sup else ""),
+            "stale": stale, "superseded": sup, "model_outcomes": sorted({r["outcome"] for r in recs})}
     obs, exc, jobs = run_real(ctx, shape, plan_rec, limit=limit, dummy=dummy, serial_seed=(seed if serial else None),
                               delay_seed=seed, timeout=timeout)
     if exc is None and obs["outcome"] == "hang":
@@ -217,7 +241,7 @@ def run_case(ctx, shape, recs, *, serial=True, seed=0, timeout=600.0):
         raise _t.MachineryError("real run crashed in the harness: %r (%s %s)" % (exc, shape, plan_rec))
     if obs["harness_errors"]:
         raise _t.MachineryError("harness error inside a real run: %s" % obs["harness_errors"][:3])
-    o = observed(obs, jobs)
+    o = observed(obs, jobs, nports={x: len(v) for x, v in dag_parents(shape).items()} if shape.startswith("dag") else None)
     rec, why = match(recs, o)
     case.update({"hang": False, "o": o, "rec": rec, "why": why, "outputs": obs["outputs"], "left": obs["left"],
                  "natural": obs["natural"], "error": obs["error"], "injected": obs["injected"]})
@@ -324,6 +348,51 @@ def c16_cases(ctx, preds, specs):
             plan = preds[shape][k][0]["plan"] or {}
             failstop = any(v[1] == "fail_stop" for v in plan.values())
             out.append((shape, k, shape.startswith("scat") and failstop))
+    return out
+
+
+# ---------------------------------------------------------------------------------------------------
+# fork/join DAGs with PARTIAL data loss (C18): two fail-stop failures in sequence, each losing the outputs of a chosen
+# set of provenance ancestors of the failing job (kind "fail_sel") - the histories in which a recovery meets an old, lost
+# instance of a job AND a newer, available one on the same port
+# ---------------------------------------------------------------------------------------------------
+
+def dag_specs(ctx):
+    """(shape, cfg kwargs, picks): picks = how many plans of each class run on the real engine: `late`/`early` = a lost and an
+    available instance of one job are met (in the one order the implementation handles / any other order), `rest` = no such
+    pair and no stale JobToken, `stale` = the listed stale-JobToken class."""
+    kw = dict(limit=BIG_LIMIT, maxpairs=2, maxtimes=1, kinds=("fail_sel",), phases=("e",))
+    if ctx.quick:
+        return [("dag4", dict(kw, maxlose=3), dict(late=4, early=1, rest=9, stale=1)),
+                ("dag6", dict(kw, maxlose=4, failjobs=("c", "d", "f")), dict(late=8, early=1, rest=13, stale=1))]
+    return [("dag4", dict(kw, maxlose=3, kinds=("fail_sel", "soft")), dict(late=50, early=10, rest=80, stale=10)),
+            ("dag5", dict(kw, maxlose=4), dict(late=50, early=10, rest=80, stale=10)),
+            ("dag6", dict(kw, maxlose=5), dict(late=50, early=20, rest=200, stale=20))]
+
+
+def dag_class(recs):
+    if any(r.get("natural2") for r in recs):
+        return "natural2"       # two transfer steps of one job fail at once and recover concurrently: not this sequential model
+    sup = {c for r in recs for _, c in (r.get("superseded") or [])}
+    if sup:
+        return "early" if "early" in sup else "late"
+    return "stale" if any(r.get("stale") for r in recs) else "rest"
+
+
+def dag_cases(ctx, preds, specs):
+    """(shape, key, class) of the plans to run: every class sampled with the seed, `late` first (they always run)."""
+    rng = ctx.rng("dag-plans")
+    out = []
+    for shape, _kw, picks in specs:
+        by = {}
+        for k in sorted(preds[shape]):
+            by.setdefault(dag_class(preds[shape][k]), []).append(k)
+        for c, ks in sorted(by.items()):
+            ctx.count("model_plans:%s:%s" % (shape, c), len(ks))
+        for c in ("late", "early", "rest", "stale"):
+            ks = list(by.get(c, []))
+            rng.shuffle(ks)
+            out += [(shape, k, c) for k in sorted(ks[:picks.get(c, 0)])]
     return out
 
 
